@@ -4,26 +4,19 @@
     [classify ks mb = None] is the fragment the theorem c19_search_exact covers. *)
 From Coq Require Import String Ascii List Bool Arith NArith ZArith.
 From Raven Require Import Base.GoStr Model.Search Model.SearchText Spec.Search.
+From Raven Require Model.SeqSet Spec.SeqSet.
 Import ListNotations.
 Local Open Scope Z_scope.
 
 Inductive cls :=
-| CCommaSet        (* a set with more than one element: the token is no "sequence set", it is skipped *)
-| CStar            (* "*" in a set: matches everything / wrong bound *)
-| CReversedRange   (* a:b with a > b matches nothing *)
-| CParenGroup      (* a parenthesised group is one unknown token: skipped *)
-| CNotOrArity      (* NOT / OR take one token plus at most one argument *)
 | CUnknownKey      (* unknown keys are skipped, the reply is OK *)
 | CTextAtom        (* header / body / sent-date evaluation differs from the field semantics on this message *)
-| CUidSingle       (* UID SEARCH UID n (no colon) returns nothing *)
-| CUidIgnoresKeys (* UID SEARCH evaluates nothing but ALL and UID a:b *)
 | CQuotedSpace.   (* the command line is split with strings.Fields and re-joined: runs of blanks / tabs inside a quoted string collapse *)
 
 Definition cls_eqb (a b : cls) : bool :=
   match a, b with
-  | CCommaSet, CCommaSet | CStar, CStar | CReversedRange, CReversedRange | CParenGroup, CParenGroup
-  | CNotOrArity, CNotOrArity | CUnknownKey, CUnknownKey
-  | CTextAtom, CTextAtom | CUidSingle, CUidSingle | CUidIgnoresKeys, CUidIgnoresKeys | CQuotedSpace, CQuotedSpace => true
+  | CUnknownKey, CUnknownKey
+  | CTextAtom, CTextAtom | CQuotedSpace, CQuotedSpace => true
   | _, _ => false
   end.
 
@@ -32,10 +25,8 @@ Definition cls_eqb (a b : cls) : bool :=
 Definition two32 : Z := 4294967296.
 Definition numeral_ok (d : str) : bool :=
   match d with [] => false | _ => forallb is_digit d && (digits_val d 0 <? two32) end.
-Definition snum_ok (a : snum) : bool := match a with SNum d => numeral_ok d | SStar => true end.
-Definition item_ok (it : sitem) : bool :=
-  match it with SOne a => snum_ok a | SRange a b => snum_ok a && snum_ok b end.
-Definition set_ok (s : list sitem) : bool := match s with [] => false | _ => forallb item_ok s end.
+(** sequence-set / uid-set: nz-numbers, "*", ranges, comma lists (Spec.SeqSet.wf) *)
+Definition set_ok (s : seqset) : bool := Spec.SeqSet.wf s.
 
 Definition backslash : ascii := "\"%char.
 Definition qchar_ok (c : ascii) : bool :=
@@ -52,7 +43,7 @@ Definition date_ok (d : sdate) : bool :=
   && forallb is_digit yyyy && (length yyyy =? 4)%nat
   && match sdate_val d with Some _ => true | None => false end.
 Definition unknown_ok (name : str) : bool :=
-  atom_ok name && negb (is_sequence_set (to_upper name))
+  atom_ok name && negb (Model.SeqSet.is_sequence_set (to_upper name))
   && match kw_of (to_upper name) with None => true | Some _ => false end.
 
 Fixpoint wf_key (k : key) : bool :=
@@ -66,8 +57,7 @@ Fixpoint wf_key (k : key) : bool :=
   | KDate _ _ d => date_ok d
   | KNot k' => wf_key k'
   | KOr a b => wf_key a && wf_key b
-  | KGroup l => (fix all (l : list key) : bool := match l with [] => true | k' :: l' => wf_key k' && all l' end) l
-                && match l with [] => false | _ => true end
+  | KGroup l => forallb wf_key l && match l with [] => false | _ => true end
   | KUnknown name => unknown_ok name
   end.
 Definition wf_prog (ks : list key) : bool := match ks with [] => false | _ => forallb wf_key ks end.
@@ -75,20 +65,16 @@ Definition wf_prog (ks : list key) : bool := match ks with [] => false | _ => fo
 (** the client's view is well formed: a flag is a non-empty word without white space
     (it is what FETCH FLAGS (...) lists between blanks) *)
 Definition flag_ok (f : str) : bool := match f with [] => false | _ => forallb (fun c => negb (is_space c)) f end.
-Definition mb_ok (mb : list smsg) : bool := forallb (fun m => forallb flag_ok (s_flags m)) mb.
+(** ... and the listing is in strictly ascending UID order, UIDs positive
+    (ORDER BY uid over UNIQUE(mailbox_id, uid); C09) *)
+Definition mb_ok (mb : list smsg) : bool :=
+  forallb (fun m => forallb flag_ok (s_flags m)) mb
+  && Spec.SeqSet.ascendingb (map s_uid mb) && forallb (fun m => 0 <? s_uid m) mb.
 
 (** ** classes *)
-Definition set_class (s : list sitem) : option cls :=
-  match s with
-  | [SOne (SNum _)] => None
-  | [SRange (SNum a) (SNum b)] => if digits_val a 0 <=? digits_val b 0 then None else Some CReversedRange
-  | [_] => Some CStar
-  | _ => Some CCommaSet
-  end.
-
 (** model and field semantics agree for the text key [k] on every message *)
-Definition text_agree_on (k : key) (im : Z * smsg) : bool :=
-  let m := to_msg im in
+Definition text_agree_on (mb : list smsg) (k : key) (im : Z * smsg) : bool :=
+  let m := to_msg mb im in
   match k with
   | KHdr h v => Bool.eqb (matches_header_or_body m (hdr_kw h) v) (spec_text_key k (snd im))
   | KHeader f v => Bool.eqb (matches_header m f v) (spec_text_key k (snd im))
@@ -97,36 +83,35 @@ Definition text_agree_on (k : key) (im : Z * smsg) : bool :=
   | _ => true
   end.
 Definition text_class (k : key) (mb : list smsg) : option cls :=
-  if forallb (text_agree_on k) (numbered mb) then None else Some CTextAtom.
+  if forallb (text_agree_on mb k) (numbered mb) then None else Some CTextAtom.
 
-(** keys of at most two tokens that may stand under NOT / OR *)
+(** keys other than NOT / OR / parenthesised lists *)
 Definition simple_class (k : key) (mb : list smsg) : option cls :=
   match k with
   | KAll => None
   | KHas _ | KUn _ | KNew | KKeyword _ | KUnkeyword _ => None   (* whole-flag comparison since fix 378938d *)
-  | KSeq s | KUid s => set_class s
+  | KSeq _ | KUid _ => None                                    (* RFC 3501 sets since fix 32751d9 *)
   | KHdr _ _ | KHeader _ _ | KBody _ | KDate true _ _ => text_class k mb
   | KText _ | KLarger _ | KSmaller _ | KDate false _ _ => None
-  | KGroup _ => Some CParenGroup
   | KUnknown _ => Some CUnknownKey
-  | KNot _ | KOr _ _ => Some CNotOrArity
-  end.
-Definition arity_ok (k : key) : bool :=
-  match k with
-  | KHeader _ _ | KNot _ | KOr _ _ | KGroup _ | KUnknown _ => false
-  | _ => true
-  end.
-Definition operand_class (k : key) (mb : list smsg) : option cls :=
-  match k with
-  | KGroup _ => Some CParenGroup
-  | KUnknown _ => Some CUnknownKey
-  | _ => if arity_ok k then simple_class k mb else Some CNotOrArity
+  | KGroup _ | KNot _ | KOr _ _ => None                        (* see key_class *)
   end.
 
-Definition key_class (k : key) (mb : list smsg) : option cls :=
+Definition first_class {A} (f : A -> option cls) : list A -> option cls :=
+  fix go (l : list A) : option cls :=
+    match l with
+    | [] => None
+    | x :: l' => match f x with None => go l' | c => c end
+    end.
+
+(** NOT and OR take complete keys and a parenthesised list is evaluated (fix
+    "NOT and OR take complete search keys"): a compound key has the classes of
+    its parts, nothing of its own *)
+Fixpoint key_class (k : key) (mb : list smsg) : option cls :=
   match k with
-  | KNot k' => operand_class k' mb
-  | KOr a b => match operand_class a mb with None => operand_class b mb | c => c end
+  | KNot k' => key_class k' mb
+  | KOr a b => match key_class a mb with None => key_class b mb | c => c end
+  | KGroup l => first_class (fun k' => key_class k' mb) l
   | _ => simple_class k mb
   end.
 
@@ -136,23 +121,8 @@ Fixpoint classify (ks : list key) (mb : list smsg) : option cls :=
   | k :: ks' => match key_class k mb with None => classify ks' mb | c => c end
   end.
 
-(** UID SEARCH (uid.handleUIDSearch) *)
-Definition classify_uid (ks : list key) : option cls :=
-  match ks with
-  | [KAll] => None
-  | [KUid s] =>
-      match s with
-      | [SOne _] => Some CUidSingle
-      | [SRange (SNum a) (SNum b)] => if digits_val a 0 <=? digits_val b 0 then None else Some CReversedRange
-      | [_] => Some CStar
-      | _ => Some CCommaSet
-      end
-  | _ => Some CUidIgnoresKeys
-  end.
-
 (** the command line level (connection.go: parts := strings.Fields(line), HandleSearch: strings.Join(parts[start:], " ")) *)
 Definition fields_stable (s : str) : bool := str_eqb (join (fields s) [sp]) s.
 Definition classify_line (ks : list key) (mb : list smsg) : option cls :=
   if fields_stable (print_prog ks) then classify ks mb else Some CQuotedSpace.
-Definition classify_uid_line (ks : list key) : option cls :=
-  if fields_stable (print_prog ks) then classify_uid ks else Some CQuotedSpace.
+(** UID SEARCH runs the same evaluator: the same classes *)
